@@ -8,5 +8,7 @@ import (
 func main() {
 	o := hx.ParseOpts()
 	env := hx.NewEnv()
-	hx.RunHistories(env, htlc.New(env), o)
+	r := htlc.New(env)
+	hx.RunHistories(env, r, o)
+	r.WriteStats(o.Out + ".stats")
 }
